@@ -56,9 +56,9 @@ def cases(tier, seed, info):
             for f in range(3):
                 items.append(dict(kinds=s, f=f))
     kinds = ['PS', 'SS', 'EH', 'MT', 'LP', 'UD', 'ED', 'HD', 'XX', 'TI', 'TP', 'TM']
-    for _ in range(200 if tier == 'quick' else 6000):
+    for _ in range(200 if tier == 'quick' else 20000):
         items.append(dict(kinds=[rng.choice(kinds) for _ in range(rng.randint(4, 9))], f=0))
-    for n in ([60, 130, 253] if tier == 'quick' else [60, 130, 200, 253] * 12):
+    for n in ([60, 130, 253] if tier == 'quick' else [60, 130, 200, 253] * 40):
         items.append(dict(kinds=[rng.choice(kinds[2:]) for _ in range(n)], f=0, small=True))
     for c in range(128):
         items.append(dict(kinds=['PS', 'UD', 'ED', 'HD'][: 1 + c % 4], f=0, creator=c))
